@@ -56,7 +56,9 @@ def main(tier, replay, t0):
                               ("VertexEntry", "VertexBufferLayout", "VERTEX_ATTRIBUTES",
                                "vertex_buffer_layout", "VertexStepMode",
                                "offset: std::mem::offset_of!", "offset : std :: mem :: offset_of !",
-                               "shader_location"))]
+                               "shader_location"))
+                       or ("ENTRY_" in (d.get("rendered") or d.get("message") or "") and
+                           "_entry" in (d.get("rendered") or ""))]
                 if bad:
                     viol.append(Violation("vertex-helpers-do-not-compile", bad[0].get("code")
                                           or "?", "the module's vertex helpers are rejected by "
@@ -277,7 +279,7 @@ def device_replay(dev_jobs):
              "count": None}]], "push_constant_ranges": [],
             "render": [{"entry": e.name, "constants": {}, "buffers": ev["buffers"]}]})
     try:
-        res = core.run_oracle("device", jobs, "c07/device", timeout=1200)
+        res = core.run_oracle("device", jobs, "c07/device", timeout=420, partial_ok=True)
     except core.Inconclusive as ex:
         return {"status": "unavailable", "why": str(ex)[:200]}
     if not res or res[0].get("adapter") is None:
